@@ -168,4 +168,12 @@ func (c c10) sendParts(w *world.World, s *world.Session) {
 	send("keyid-dropped", t.TokenType, s.Type, s.Iss, t.Nonce, t.Context, nil, a)
 	send("context-dropped", t.TokenType, s.Type, s.Iss, t.Nonce, nil, t.KeyID, a)
 	send("all-empty", t.TokenType, s.Type, s.Iss, nil, nil, nil, nil)
+	// the same bytes with the boundary between key id and authenticator moved: the carried
+	// authenticator is then not the evaluation of the carried fields
+	ka := append(append([]byte(nil), t.KeyID...), a...)
+	for _, cut := range []int{31, 30, 33, 16, 0} {
+		send(fmt.Sprintf("boundary-keyid/auth@%d", cut), t.TokenType, s.Type, s.Iss, t.Nonce, t.Context, ka[:cut], ka[cut:])
+	}
+	ca := append(append([]byte(nil), t.Context...), t.KeyID...)
+	send("boundary-context/keyid+auth", t.TokenType, s.Type, s.Iss, t.Nonce, ca[:31], ca[31:], a)
 }
